@@ -6,8 +6,6 @@ import DltypeModel.Generated.SrcShape
 namespace Dltype.Prov
 
 theorem shape_is_the_modelled_source : Gen.Src.srcShape = [
-  ("TensorTypeBase.__init__", ["def(self, shape, *, optional=False)", "self.multiaxis_index = None", "self.anonymous_multiaxis = False", "self.multiaxis_name = None", "self.optional = optional", "self.expected_shape = self._parse_shape_string(shape)", "self._literal_dims = tuple(((idx, dim.evaluate({})) for idx, dim in enumerate(self.expected_shape) if dim.is_literal and idx != self.multiaxis_index))"]),
-  ("TensorTypeBase._parse_shape_string", ["def(self, shape_string)", "if shape_string is None:\n    return ()", "split_shape = shape_string.split()", "if not split_shape:\n    msg = f'Invalid shape shape_string={shape_string!r}'\n    raise SyntaxError(msg)", "processed_shapes = []", "_multiaxis_parsed = set()", "for i, dim_str in enumerate(split_shape):\n    expression = _parser.expression_from_string(dim_str)\n    if expression.is_named_multiaxis or expression.is_anonymous:\n        _multiaxis_parsed.add(i)\n        self.multiaxis_name = expression.identifier if expression.is_named_multiaxis else None\n        self.multiaxis_index = i\n    self.anonymous_multiaxis |= expression.is_anonymous\n    processed_shapes.append(expression)", "if len(_multiaxis_parsed) > 1:\n    msg = f'Multiple multiaxis modifiers not allowed in shape_string={shape_string!r}'\n    raise SyntaxError(msg)", "return tuple(processed_shapes)"]),
   ("TensorTypeBase.__class_getitem__", ["def(cls, shape_string) @classmethod", "return cls(shape_string if isinstance(shape_string, str | None) else str(shape_string))"])] := by
   rfl
 
